@@ -78,7 +78,7 @@ func decorate(rt *rapid.T, label string, kids []*tnode) []*tnode {
 	return kids
 }
 
-var treeNameRunes = []rune("abcdefghijklmnopqrstuvwxyzABCXYZ0123456789 _-+()&!,=#")
+var treeNameRunes = []rune("abcdefghijklmnopqrstuvwxyzABCXYZ0123456789 _-+()&!,=#\\") // the backslash is a name byte like any other on the server's file system
 
 func genTreeName(rt *rapid.T, label string, allowDot bool, used map[string]bool) string {
 	for tries := 0; ; tries++ {
